@@ -63,9 +63,12 @@ func ruleCofactor(r *rep.Report, p *load.Program) {
 		c := func(f string) *pt.Term { return T("curve25519.Contract", fld(L("P0"), f)) }
 		// whole-array equality may be spelled bytes.Equal(a,b) or subtle.ConstantTimeCompare(a,b) == 1 (public data)
 		eqForms := func(a, b *pt.Term) []string {
-			return []string{T("byteseq", a, b).String(), T("eq", N(1), T("cteq", a, b)).String()}
+			return []string{T("byteseq", a, b).String(), T("eq", N(1), T("cteq", a, b)).String(), T("byteseq", b, a).String(), T("eq", N(1), T("cteq", b, a)).String(),
+				T("eq", a, b).String(), T("eq", b, a).String()} // the last two: Go's == on [32]byte values
 		}
 		xzs, yzs := eqForms(pt.Zero, c("x")), eqForms(c("y"), c("z"))
+		// the zero value of an array type is rendered as the nil constant
+		xzs = append(xzs, T("eq", c("x"), L("nil")).String(), T("eq", L("nil"), c("x")).String())
 		isIn := func(s string, set []string) bool {
 			for _, x := range set {
 				if x == s {
